@@ -573,6 +573,38 @@ func indexDischarged(fn *ssa.Function, blk *ssa.BasicBlock, base, index ssa.Valu
 			}
 		}
 	}
+	// 1c. down-counting loop over positions: i starts at len(base), steps by -1, the access is
+	// base[i-1] under i > 0 (or i >= 1)
+	if sub, ok := index.(*ssa.BinOp); ok && sub.Op == token.SUB && isConstInt(sub.Y, 1) {
+		if ph, ok := sub.X.(*ssa.Phi); ok {
+			startsAtLen, stepsDown := false, false
+			for _, e := range ph.Edges {
+				if lenOfBase(e) || sameLen(e, base) {
+					startsAtLen = true
+				}
+				if bo, ok := e.(*ssa.BinOp); ok && bo.Op == token.SUB && bo.X == ph && isConstInt(bo.Y, 1) {
+					stepsDown = true
+				}
+			}
+			if startsAtLen && stepsDown {
+				for d := blk; d != nil; d = d.Idom() {
+					parent := d.Idom()
+					if parent == nil || len(parent.Instrs) == 0 {
+						continue
+					}
+					ifi, ok := parent.Instrs[len(parent.Instrs)-1].(*ssa.If)
+					if !ok || !(parent.Succs[0].Dominates(blk) && len(parent.Succs[0].Preds) == 1) {
+						continue
+					}
+					if cmp, ok := ifi.Cond.(*ssa.BinOp); ok && cmp.X == ph {
+						if (cmp.Op == token.GTR && isConstInt(cmp.Y, 0)) || (cmp.Op == token.GEQ && isConstInt(cmp.Y, 1)) {
+							return true
+						}
+					}
+				}
+			}
+		}
+	}
 	// 2. dominating guard: index < len(base), len(base) > index, i <= len …
 	// field of the receiver the base is loaded from (stack fields of the converters)
 	baseField := func() (ssa.Value, int, bool) {
